@@ -7,17 +7,60 @@ import SteelVerif.C09.Model
 namespace SteelVerif.C09
 open SteelVerif.C01
 
+/-! ## Concrete programs used by the non-vacuity examples -/
+
+/-- `(define (loop n acc) (if (<= n 0) acc (loop (- n 1) (+ acc n))))`: all calls in tail position. -/
+def loopFn : FnDef :=
+  { arity := 2,
+    body := .ite (.prim .le (.loc 0) (.const (.int 0))) (.loc 1)
+              (.call 0 [.prim .sub (.loc 0) (.const (.int 1)), .prim .add (.loc 1) (.loc 0)]) }
+
+/-- Non-tail recursion `(define (deep n) (if (<= n 0) 0 (+ 1 (deep (- n 1)))))` beyond the limit. -/
+def deepFn : FnDef :=
+  { arity := 1,
+    body := .ite (.prim .le (.loc 0) (.const (.int 0))) (.const (.int 0))
+              (.prim .add (.const (.int 1)) (.call 0 [.prim .sub (.loc 0) (.const (.int 1))])) }
+
+/-- Two mutually recursive procedures `(define (ev n) (if (<= n 0) #t (od (- n 1))))`, `od` likewise. -/
+def evFn : FnDef :=
+  { arity := 1, body := .ite (.prim .le (.loc 0) (.const (.int 0))) (.const (.bool true))
+                         (.call 1 [.prim .sub (.loc 0) (.const (.int 1))]) }
+def odFn : FnDef :=
+  { arity := 1, body := .ite (.prim .le (.loc 0) (.const (.int 0))) (.const (.bool false))
+                         (.let1 (.prim .sub (.loc 0) (.const (.int 1))) (.call 0 [.loc 1])) }
+
+/-- A state in the middle of a computation: about to execute a tail call with one suspended caller and a
+temporary (`9`) below the two operands. -/
+def vmTail : VM :=
+  { cur := { code := [.tailCall 0 2], ip := 0, stack := [.int 9, .int 5, .int 0] },
+    frames := [{ code := [.ret], ip := 0, stack := [.int 7] }] }
+
+/-- The same with a frame-pushing call. -/
+def vmCall : VM :=
+  { cur := { code := [.call 0 2, .ret], ip := 0, stack := [.int 9, .int 5, .int 0] },
+    frames := [{ code := [.ret], ip := 0, stack := [.int 7] }] }
+
 /-! ## The tail-call instruction reuses the frame -/
 
+/-- The tail-call instruction replaces the current frame: the list of suspended callers is untouched, and the
+new frame consists of EXACTLY the top `n` operands (no off-by-one in the argument shuffle), at `ip = 0` of the
+callee's code. -/
 theorem tailcall_reuses_frame (limit : Nat) (fns : List FnDef) (vm : VM) (f n : Nat) (fd : FnDef)
     (hi : vm.cur.code[vm.cur.ip]? = some (.tailCall f n)) (hf : fns[f]? = some fd)
     (ha : fd.arity = n) (hl : n ≤ vm.cur.stack.length) :
     ∃ vm', step limit fns vm = .next vm' ∧ vm'.frames = vm.frames ∧ vm'.cur.stack.length = fd.arity ∧
-      vm'.cur.code = codeOf fd := by
+      vm'.cur.code = codeOf fd ∧ vm'.cur.ip = 0 ∧
+      vm'.cur.stack = vm.cur.stack.drop (vm.cur.stack.length - n) := by
   have hc : ¬ (fd.arity ≠ n ∨ vm.cur.stack.length < n) := by omega
   refine ⟨{ vm with cur := { code := codeOf fd, ip := 0, stack := vm.cur.stack.drop (vm.cur.stack.length - n) } },
-    by simp [step, hi, hf, hc], rfl, ?_, rfl⟩
+    by simp [step, hi, hf, hc], rfl, ?_, rfl, rfl, rfl⟩
   simp; omega
+
+/-- Non-vacuity: all hypotheses hold on `vmTail` (a caller is suspended, a temporary lies below the operands);
+the new frame is exactly `[5, 0]` and the caller is still there. -/
+example : ∃ vm', step 3 [loopFn] vmTail = .next vm' ∧ vm'.frames = vmTail.frames ∧ vm'.cur.stack.length = 2 ∧
+    vm'.cur.code = codeOf loopFn ∧ vm'.cur.ip = 0 ∧ vm'.cur.stack = [.int 5, .int 0] :=
+  tailcall_reuses_frame 3 [loopFn] vmTail 0 2 loopFn rfl rfl rfl (by decide)
 
 theorem stepVM_frames (fns : List FnDef) (vm vm' : VM) (h : stepVM fns vm = .next vm') :
     vm'.frames = vm.frames ∨ (∃ c, vm.frames = c :: vm'.frames) ∨
@@ -81,6 +124,13 @@ theorem step_depth (limit : Nat) (fns : List FnDef) (vm vm' : VM) (h : step limi
   · rw [h1]; exact ⟨by simp; omega, fun _ => by simp⟩
   · rw [h1]; exact ⟨by simp, fun hne => absurd hc (hne f n)⟩
 
+
+/-- Non-vacuity: a frame-pushing call (first conjunct tight: 1 → 2 callers) and a tail call (second conjunct
+fires: 1 → 1). -/
+example : ∃ vm', step 5 [loopFn] vmCall = .next vm' ∧ vm'.frames.length = vmCall.frames.length + 1 := by
+  refine ⟨_, rfl, ?_⟩; decide
+example : ∃ vm', step 5 [loopFn] vmTail = .next vm' ∧ vm'.frames.length ≤ vmTail.frames.length :=
+  ⟨_, rfl, (step_depth 5 [loopFn] vmTail _ rfl).2 (by intro f n h; cases h)⟩
 
 /-! ## Calls in tail position are compiled to tail calls -/
 
@@ -151,6 +201,16 @@ theorem tail_positions_marked : ∀ (e : IR), TailOnly e = true → hasCall (com
       simp only [TailOnly] at h
       simp only [compileTail, hasCall_append, hasCall_cons, hasCall_nil, isCall, compileArgs_noCall args h]; rfl
 
+
+
+/-- Non-vacuity: the bodies of `loopFn` (call in the else branch) and `odFn` (call in a `let` body) satisfy the
+hypothesis, their code does contain a tail call (the conclusion is not true for lack of calls), and the
+hypothesis is necessary: `deepFn`'s body has a frame-pushing call. -/
+example : hasCall (compileTail loopFn.body) = false := tail_positions_marked _ (by decide)
+example : hasCall (compileTail odFn.body) = false := tail_positions_marked _ (by decide)
+example : Instr.tailCall 0 2 ∈ compileTail loopFn.body := by decide
+example : Instr.tailCall 0 1 ∈ compileTail odFn.body := by decide
+example : TailOnly deepFn.body = false ∧ hasCall (compileTail deepFn.body) = true := by decide
 
 /-! ## A program that only calls in tail position runs at constant frame depth -/
 
@@ -260,8 +320,23 @@ theorem loop_constant_space (limit : Nat) (fns : List FnDef) (e : IR)
   rw [h0] at this
   exact List.eq_nil_of_length_eq_zero (by omega)
 
-/-- … and the operand stack of the reused frame is reset to exactly the arguments at every iteration
-(`tailcall_reuses_frame`), so it is bounded by the arity plus the temporaries of one body evaluation. -/
+/-- Non-vacuity: self recursion, and mutual recursion between two procedures one of which calls from a `let`
+body; the hypothesis `steps … = some vm'` is satisfiable for a non-trivial number of steps (60 steps are
+several iterations), and the programs terminate with the right value (so the claim is not about stuck runs). -/
+example (n : Nat) (vm' : VM)
+    (h : steps 100 [loopFn] n (initT (.call 0 [.const (.int 40), .const (.int 0)])) = some vm') : vm'.frames = [] :=
+  loop_constant_space 100 [loopFn] _ (by decide) (by decide) n vm' h
+example (n : Nat) (vm' : VM)
+    (h : steps 2 [evFn, odFn] n (initT (.call 0 [.const (.int 7)])) = some vm') : vm'.frames = [] :=
+  loop_constant_space 2 [evFn, odFn] _ (by decide) (by decide) n vm' h
+example : (steps 100 [loopFn] 60 (initT (.call 0 [.const (.int 40), .const (.int 0)]))).isSome = true := by
+  decide +kernel
+example : (steps 2 [evFn, odFn] 60 (initT (.call 0 [.const (.int 7)]))).isSome = true := by decide +kernel
+example : run 2 [evFn, odFn] 2000 (initT (.call 0 [.const (.int 7)])) = .halt (.bool false) := by decide +kernel
+
+/-- The same fact in terms of the high-water mark: the largest number of frames seen during ANY number of
+steps is the number at the start.  (This is about the FRAME stack; the operand stack is
+`loop_operand_stack_bounded` below.) -/
 theorem maxDepth_constant (limit : Nat) (fns : List FnDef) :
     ∀ (n : Nat) (vm : VM), CodeOk fns vm → maxDepth limit fns n vm = vm.frames.length + 1 := by
   intro n
@@ -277,6 +352,268 @@ theorem maxDepth_constant (limit : Nat) (fns : List FnDef) :
     | halt v => rfl
     | overflow => rfl
     | stuck => rfl
+
+theorem codeOk_init (fns : List FnDef) (e : IR)
+    (hmain : TailOnly e = true) (hfns : ∀ fd ∈ fns, TailOnly fd.body = true) : CodeOk fns (initT e) :=
+  ⟨tail_positions_marked e hmain, by simp [initT], fun fd hfd => tail_positions_marked fd.body (hfns fd hfd)⟩
+
+/-- Non-vacuity of `maxDepth_constant`: `CodeOk` holds of the initial state of the loop programs, and the
+high-water mark over 500 steps (≈ 30 iterations) is 1. -/
+example : maxDepth 100 [loopFn] 500 (initT (.call 0 [.const (.int 40), .const (.int 0)])) = 1 :=
+  maxDepth_constant 100 [loopFn] 500 _ (codeOk_init _ _ (by decide) (by decide))
+/-- … whereas for the non-tail recursion it is not (the hypothesis is needed). -/
+example : maxDepth 100 [deepFn] 500 (initT (.call 0 [.const (.int 10)])) = 11 := by decide +kernel
+
+/-- **The frame limit never fires in a tail-recursive loop**, whatever the limit (even 0) and whatever the
+number of steps: the run ends with a value or keeps going, it never ends with the overflow error. -/
+theorem loop_never_overflows (limit : Nat) (fns : List FnDef) (e : IR)
+    (hmain : TailOnly e = true) (hfns : ∀ fd ∈ fns, TailOnly fd.body = true)
+    (n : Nat) (vm' : VM) (h : steps limit fns n (initT e) = some vm') : step limit fns vm' ≠ .overflow := by
+  have hok := (steps_codeOk limit fns n (initT e) vm' (codeOk_init fns e hmain hfns) h).1
+  have hnc := not_call_of_hasCall hok.1 vm'.cur.ip
+  intro ho
+  unfold step at ho
+  cases hi : vm'.cur.code[vm'.cur.ip]? with
+  | none => simp [hi] at ho
+  | some ins =>
+    simp only [hi] at ho
+    cases ins
+    case call f n => exact absurd hi (hnc f n)
+    all_goals
+      simp only at ho
+      (repeat' split at ho)
+    all_goals first
+      | (cases ho; done)
+
+/-- Non-vacuity: limit 0, 60 steps into the loop (the hypothesis `steps … = some _` holds — tail calls never
+consult the limit), the loop terminates with its value under limit 0, and with the same limit the non-tail
+recursion does overflow at its first call. -/
+example (n : Nat) (vm' : VM)
+    (h : steps 0 [loopFn] n (initT (.call 0 [.const (.int 40), .const (.int 0)])) = some vm') :
+    step 0 [loopFn] vm' ≠ .overflow :=
+  loop_never_overflows 0 [loopFn] _ (by decide) (by decide) n vm' h
+example : (steps 0 [loopFn] 60 (initT (.call 0 [.const (.int 40), .const (.int 0)]))).isSome = true := by
+  decide +kernel
+example : run 0 [loopFn] 2000 (initT (.call 0 [.const (.int 40), .const (.int 0)])) = .halt (.int 820) := by
+  decide +kernel
+example : run 0 [deepFn] 2000 (initT (.call 0 [.const (.int 3)])) = .halt (.int 3) ∨
+    run 0 [deepFn] 2000 (initT (.call 0 [.const (.int 3)])) = .overflow := by decide +kernel
+
+/-! ## One loop, every iteration count, with its result -/
+
+/-- the state at the head of an iteration of `loopFn` with `k` iterations to go -/
+def loopHead (k acc : Int) : VM :=
+  { cur := { code := codeOf loopFn, ip := 0, stack := [.int k, .int acc] }, frames := [] }
+
+/-- … after the test `(<= k 0)` has been evaluated -/
+def loopTested (k acc : Int) (b : Bool) : VM :=
+  { cur := { code := codeOf loopFn, ip := 3, stack := [.int k, .int acc, .bool b] }, frames := [] }
+
+theorem run_of_steps (limit : Nat) (fns : List FnDef) : ∀ (a b : Nat) (vm vm' : VM),
+    steps limit fns a vm = some vm' → run limit fns (a + b) vm = run limit fns b vm'
+  | 0, b, vm, vm', h => by simp [steps] at h; subst h; simp
+  | a + 1, b, vm, vm', h => by
+    simp only [steps] at h
+    have : a + 1 + b = (a + b) + 1 := by omega
+    rw [this]; simp only [run]
+    cases hs : step limit fns vm with
+    | next vm1 => rw [hs] at h; simp only; exact run_of_steps limit fns a b vm1 vm' h
+    | halt v => rw [hs] at h; cases h
+    | overflow => rw [hs] at h; cases h
+    | stuck => rw [hs] at h; cases h
+
+theorem loop_test (limit : Nat) (k acc : Int) :
+    steps limit [loopFn] 3 (loopHead k acc) = some (loopTested k acc (decide (k ≤ 0))) := rfl
+theorem loop_again (limit : Nat) (k acc : Int) :
+    steps limit [loopFn] 8 (loopTested k acc false) = some (loopHead (k - 1) (acc + k)) := rfl
+theorem loop_exit (limit : Nat) (k acc : Int) :
+    run limit [loopFn] 3 (loopTested k acc true) = .halt (.int acc) := rfl
+theorem loop_enter (limit : Nat) (n : Int) :
+    steps limit [loopFn] 3 (initT (.call 0 [.const (.int n), .const (.int 0)])) = some (loopHead n 0) := rfl
+/-- 1 + 2 + … + n -/
+def sumTo : Nat → Int
+  | 0 => 0
+  | n + 1 => sumTo n + ((n + 1 : Nat) : Int)
+
+theorem loop_from_head (limit : Nat) : ∀ (n : Nat) (acc : Int),
+    run limit [loopFn] (11 * n + 6) (loopHead n acc) = .halt (.int (acc + sumTo n))
+  | 0, acc => by
+    have h1 := loop_test limit ((0 : Nat) : Int) acc
+    rw [show 11 * 0 + 6 = 3 + 3 from rfl, run_of_steps limit _ 3 3 _ _ h1]
+    simp only [Int.natCast_zero, Int.le_refl, decide_true, sumTo, Int.add_zero]
+    exact loop_exit limit 0 acc
+  | n + 1, acc => by
+    have h1 := loop_test limit ((n + 1 : Nat) : Int) acc
+    have hk : decide (((n + 1 : Nat) : Int) ≤ 0) = false := by simp
+    rw [hk] at h1
+    have h2 := loop_again limit ((n + 1 : Nat) : Int) acc
+    have e : ((n + 1 : Nat) : Int) - 1 = (n : Int) := by omega
+    rw [e] at h2
+    rw [show 11 * (n + 1) + 6 = 3 + (8 + (11 * n + 6)) by omega, run_of_steps limit _ 3 _ _ _ h1,
+      run_of_steps limit _ 8 _ _ _ h2, loop_from_head limit n]
+    simp only [sumTo]
+    congr 2; omega
+
+/-- **A loop written as tail recursion runs for ANY number of iterations**: for every `n` and every frame limit
+(even 0) the program `(loop n 0)` with `(define (loop n acc) (if (<= n 0) acc (loop (- n 1) (+ acc n))))`,
+compiled tail-aware, halts after `11·n + 9` instructions with `1 + 2 + … + n` — it neither gets stuck nor hits
+the limit, and (by `loop_constant_space` / `loop_operand_stack_bounded`) it does so with no suspended caller
+and at most 15 operands.  This is ONE program (self recursion with two accumulating parameters); it shows
+that the general invariants above are not satisfied only by runs that stop early. -/
+theorem tail_loop_any_count (limit : Nat) (n : Nat) :
+    run limit [loopFn] (11 * n + 9) (initT (.call 0 [.const (.int n), .const (.int 0)])) = .halt (.int (sumTo n)) := by
+  rw [show 11 * n + 9 = 3 + (11 * n + 6) by omega, run_of_steps limit _ 3 _ _ _ (loop_enter limit n),
+    loop_from_head limit n 0]
+  simp
+
+/-- non-vacuity: the instance `n = 10^7` of the property's quantifier, under frame limit 0 -/
+example : run 0 [loopFn] (11 * 10000000 + 9) (initT (.call 0 [.const (.int (10000000 : Nat)), .const (.int 0)]))
+    = .halt (.int (sumTo 10000000)) := tail_loop_any_count 0 10000000
+example : sumTo 4 = 10 := by decide
+
+/-! ## … and with a bounded operand stack -/
+
+/-- The largest arity of the program's procedures. -/
+def maxArity (fns : List FnDef) : Nat := fns.foldr (fun fd m => max fd.arity m) 0
+
+/-- The longest code of the program (main expression and procedure bodies). -/
+def maxCode (fns : List FnDef) (e : IR) : Nat :=
+  fns.foldr (fun fd m => max (codeOf fd).length m) (compileTail e).length
+
+theorem arity_le_maxArity {fns : List FnDef} {fd : FnDef} (h : fd ∈ fns) : fd.arity ≤ maxArity fns := by
+  induction fns with
+  | nil => cases h
+  | cons a rest ih =>
+    simp only [maxArity, List.foldr_cons]
+    rcases List.mem_cons.1 h with rfl | h
+    · omega
+    · have := ih h; simp only [maxArity] at this; omega
+
+theorem main_le_maxCode (fns : List FnDef) (e : IR) : (compileTail e).length ≤ maxCode fns e := by
+  induction fns with
+  | nil => simp [maxCode]
+  | cons a rest ih => simp only [maxCode, List.foldr_cons] at ih ⊢; omega
+
+theorem code_le_maxCode {fns : List FnDef} {fd : FnDef} (e : IR) (h : fd ∈ fns) :
+    (codeOf fd).length ≤ maxCode fns e := by
+  induction fns with
+  | nil => cases h
+  | cons a rest ih =>
+    simp only [maxCode, List.foldr_cons]
+    rcases List.mem_cons.1 h with rfl | h
+    · omega
+    · have := ih h; simp only [maxCode] at this; omega
+
+/-- An instruction other than a call, executed with no suspended caller, pushes at most one operand, moves
+`ip` forward and stays in the same code. -/
+theorem stepVM_stack (fns : List FnDef) (vm vm' : VM) (h : stepVM fns vm = .next vm') (hfr : vm.frames = [])
+    (hnc : ∀ f n, vm.cur.code[vm.cur.ip]? ≠ some (.call f n))
+    (hnt : ∀ f n, vm.cur.code[vm.cur.ip]? ≠ some (.tailCall f n)) :
+    vm'.cur.stack.length ≤ vm.cur.stack.length + 1 ∧ vm.cur.ip + 1 ≤ vm'.cur.ip ∧
+    vm'.cur.code = vm.cur.code := by
+  unfold stepVM at h
+  cases hi : vm.cur.code[vm.cur.ip]? with
+  | none => simp [hi] at h
+  | some ins =>
+    simp only [hi] at h
+    cases ins
+    case call f n => exact absurd hi (hnc f n)
+    case tailCall f n => exact absurd hi (hnt f n)
+    all_goals
+      simp only at h
+      (repeat' split at h)
+    all_goals first
+      | (cases h; done)
+      | (rename_i c rest hc; rw [hfr] at hc; cases hc; done)
+      | (simp only [StepRes.next.injEq] at h; subst h
+         refine ⟨?_, ?_, rfl⟩ <;> simp <;> omega)
+
+/-- Invariant of a tail-only run: no caller is suspended, the current code is the main expression's or a
+procedure's, and the operand stack is at most `maxArity + ip` and at most `maxArity + code length`. -/
+def StackOk (fns : List FnDef) (e : IR) (vm : VM) : Prop :=
+  vm.frames = [] ∧ (vm.cur.code = compileTail e ∨ ∃ fd ∈ fns, vm.cur.code = codeOf fd) ∧
+  vm.cur.stack.length ≤ maxArity fns + vm.cur.ip ∧ vm.cur.stack.length ≤ maxArity fns + vm.cur.code.length
+
+theorem step_stackOk (limit : Nat) (fns : List FnDef) (e : IR) (vm vm' : VM) (hok : CodeOk fns vm)
+    (hs : StackOk fns e vm) (h : step limit fns vm = .next vm') : StackOk fns e vm' := by
+  obtain ⟨h1, h2, h3⟩ := hok
+  obtain ⟨s1, s2, s3, s4⟩ := hs
+  have hnc := not_call_of_hasCall h1 vm.cur.ip
+  have h' := h
+  unfold step at h
+  cases hi : vm.cur.code[vm.cur.ip]? with
+  | none => simp [hi] at h
+  | some ins =>
+    have hip : vm.cur.ip < vm.cur.code.length := (List.getElem?_eq_some_iff.1 hi).1
+    simp only [hi] at h
+    cases ins
+    case call f n => exact absurd hi (hnc f n)
+    case tailCall f n =>
+      simp only at h
+      cases hf : fns[f]? with
+      | none => simp [hf] at h
+      | some fd =>
+        simp only [hf] at h
+        split at h
+        · cases h
+        · rename_i hc
+          simp only [Res.next.injEq] at h; subst h
+          have hmem := List.mem_of_getElem? hf
+          have ha := arity_le_maxArity hmem
+          refine ⟨s1, Or.inr ⟨fd, hmem, rfl⟩, ?_, ?_⟩ <;> simp <;> omega
+    all_goals
+      simp only at h
+      split at h
+      · rename_i vm2 hs2
+        simp only [Res.next.injEq] at h; subst h
+        obtain ⟨e1, e2, e3⟩ := stepVM_stack fns vm vm2 hs2 s1 (by rw [hi]; intro f n hc; cases hc)
+          (by rw [hi]; intro f n hc; cases hc)
+        have e4 := (step_codeOk limit fns vm vm2 ⟨h1, h2, h3⟩ h').2
+        refine ⟨?_, by rw [e3]; exact s2, by omega, by rw [e3]; omega⟩
+        rw [s1] at e4; exact List.eq_nil_of_length_eq_zero (by simpa using e4)
+      · cases h
+      · cases h
+
+/-- **The operand stack of a tail-recursive loop is bounded independently of the number of iterations**: in
+every state reachable after ANY number of steps it holds at most `maxArity fns + maxCode fns e` values — a
+number read off the program text (largest arity + longest body), in which neither the step count nor any
+runtime value occurs.  Together with `loop_constant_space` (no frame is ever pushed) this is "consumes no
+additional stack of any kind" for the two stacks of the model VM. -/
+theorem loop_operand_stack_bounded (limit : Nat) (fns : List FnDef) (e : IR)
+    (hmain : TailOnly e = true) (hfns : ∀ fd ∈ fns, TailOnly fd.body = true) :
+    ∀ (n : Nat) (vm' : VM), steps limit fns n (initT e) = some vm' →
+      vm'.cur.stack.length ≤ maxArity fns + maxCode fns e := by
+  have key : ∀ (n : Nat) (vm vm' : VM), CodeOk fns vm → StackOk fns e vm → steps limit fns n vm = some vm' →
+      StackOk fns e vm' := by
+    intro n
+    induction n with
+    | zero => intro vm vm' _ hs h; simp [steps] at h; subst h; exact hs
+    | succ n ih =>
+      intro vm vm' hok hs h
+      simp only [steps] at h
+      cases hst : step limit fns vm with
+      | next vm1 =>
+        rw [hst] at h
+        exact ih vm1 vm' (step_codeOk limit fns vm vm1 hok hst).1 (step_stackOk limit fns e vm vm1 hok hs hst) h
+      | halt v => rw [hst] at h; cases h
+      | overflow => rw [hst] at h; cases h
+      | stuck => rw [hst] at h; cases h
+  intro n vm' h
+  have h0 : StackOk fns e (initT e) := ⟨rfl, Or.inl rfl, by simp [initT], by simp [initT]⟩
+  obtain ⟨_, hcode, _, hlen⟩ := key n (initT e) vm' (codeOk_init fns e hmain hfns) h0 h
+  rcases hcode with hc | ⟨fd, hmem, hc⟩
+  · have := main_le_maxCode fns e; rw [hc] at hlen; omega
+  · have := code_le_maxCode e hmem; rw [hc] at hlen; omega
+
+/-- Non-vacuity: the bound for the loop program is 2 + 13 = 15 whatever the iteration count `k` in the main
+expression; the stack does hold several values during an iteration (4 after 9 steps), so the bound is not met
+by an empty stack. -/
+example (k : Int) (n : Nat) (vm' : VM)
+    (h : steps 100 [loopFn] n (initT (.call 0 [.const (.int k), .const (.int 0)])) = some vm') :
+    vm'.cur.stack.length ≤ 15 :=
+  loop_operand_stack_bounded 100 [loopFn] _ (by rfl) (by decide) n vm' h
+example : ((steps 100 [loopFn] 9 (initT (.call 0 [.const (.int 40), .const (.int 0)]))).map
+    (·.cur.stack.length)) = some 4 := by decide +kernel
 
 /-! ## The frame limit -/
 
@@ -310,25 +647,152 @@ theorem call_at_limit_overflows (limit : Nat) (fns : List FnDef) (vm : VM) (f n 
   have hc : ¬ (fd.arity ≠ n ∨ vm.cur.stack.length < n) := by omega
   simp [step, hi, hf, hc]; omega
 
-/-! ## Non-vacuity -/
+/-- Non-vacuity of `depth_bounded`: a frame-pushing call with 1 caller suspended under limit 3 (the bound is
+reached: 3 frames afterwards), and of `call_at_limit_overflows`: the same state under limit 2. -/
+example : ∃ vm', step 3 [loopFn] vmCall = .next vm' ∧ vm'.frames.length + 1 ≤ 3 ∧ vm'.frames.length + 1 = 3 :=
+  ⟨_, rfl, depth_bounded 3 [loopFn] vmCall _ (by decide) rfl, by decide⟩
+example : step 2 [loopFn] vmCall = .overflow :=
+  call_at_limit_overflows 2 [loopFn] vmCall 0 2 loopFn rfl rfl rfl (by decide) (by decide)
 
-/-- `(define (loop n acc) (if (<= n 0) acc (loop (- n 1) (+ acc n))))`: all calls in tail position. -/
-def loopFn : FnDef :=
-  { arity := 2,
-    body := .ite (.prim .le (.loc 0) (.const (.int 0))) (.loc 1)
-              (.call 0 [.prim .sub (.loc 0) (.const (.int 1)), .prim .add (.loc 1) (.loc 0)]) }
+/-- **Whatever the program does, the frame stack never exceeds the limit**: in every state reachable from the
+initial state after any number of steps there are at most `limit` frames (current one included).  So runaway
+non-tail recursion cannot grow the frame stack without bound; by `call_at_limit_overflows` the call that
+would exceed the limit yields the error value. -/
+theorem frames_never_exceed_limit (limit : Nat) (fns : List FnDef) :
+    ∀ (n : Nat) (vm vm' : VM), vm.frames.length + 1 ≤ limit → steps limit fns n vm = some vm' →
+      vm'.frames.length + 1 ≤ limit := by
+  intro n
+  induction n with
+  | zero => intro vm vm' hb h; simp [steps] at h; subst h; exact hb
+  | succ n ih =>
+    intro vm vm' hb h
+    simp only [steps] at h
+    cases hs : step limit fns vm with
+    | next vm1 => rw [hs] at h; exact ih vm1 vm' (depth_bounded limit fns vm vm1 hb hs) h
+    | halt v => rw [hs] at h; cases h
+    | overflow => rw [hs] at h; cases h
+    | stuck => rw [hs] at h; cases h
 
-example : TailOnly loopFn.body = true := by decide
-example : TailOnly (IR.call 0 [.const (.int 40), .const (.int 0)]) = true := by decide
-/-- 40 iterations at depth 1 (and by `loop_constant_space` any number). -/
-example : run 100 [loopFn] 2000 (initT (.call 0 [.const (.int 40), .const (.int 0)])) = .halt (.int 820) := by
+/-- Non-vacuity: the non-tail recursion `(deep 30)` under limit 5: every reachable state has ≤ 5 frames, 40
+steps are possible and reach the bound (5 frames), and the run ends with the error value (a test of this one
+program and this one limit, by evaluation). -/
+example (n : Nat) (vm' : VM) (h : steps 5 [deepFn] n (initT (.call 0 [.const (.int 30)])) = some vm') :
+    vm'.frames.length + 1 ≤ 5 :=
+  frames_never_exceed_limit 5 [deepFn] n _ vm' (by decide) h
+example : ((steps 5 [deepFn] 40 (initT (.call 0 [.const (.int 30)]))).map (·.frames.length + 1)) = some 5 := by
   decide +kernel
-/-- Non-tail recursion `(define (deep n) (if (<= n 0) 0 (+ 1 (deep (- n 1)))))` beyond the limit. -/
-def deepFn : FnDef :=
-  { arity := 1,
-    body := .ite (.prim .le (.loc 0) (.const (.int 0))) (.const (.int 0))
-              (.prim .add (.const (.int 1)) (.call 0 [.prim .sub (.loc 0) (.const (.int 1))])) }
-example : run 5 [deepFn] 2000 (initT (.call 0 [.const (.int 3)])) = .halt (.int 3) := by decide +kernel
 example : run 5 [deepFn] 2000 (initT (.call 0 [.const (.int 30)])) = .overflow := by decide +kernel
+/-- Below the limit the same program returns its value. -/
+example : run 5 [deepFn] 2000 (initT (.call 0 [.const (.int 3)])) = .halt (.int 3) := by decide +kernel
+
+/-! ## One non-tail recursion, every limit, every depth beyond it -/
+
+/-- head of an activation of `deepFn` with argument `k`, below `fs` suspended callers -/
+def deepHead (k : Int) (fs : List Frame) : VM :=
+  { cur := { code := codeOf deepFn, ip := 0, stack := [.int k] }, frames := fs }
+def deepTested (k : Int) (fs : List Frame) (b : Bool) : VM :=
+  { cur := { code := codeOf deepFn, ip := 3, stack := [.int k, .bool b] }, frames := fs }
+/-- about to execute the non-tail call `(deep (- k 1))` inside `(+ 1 …)` -/
+def deepAtCall (k : Int) (fs : List Frame) : VM :=
+  { cur := { code := codeOf deepFn, ip := 10, stack := [.int k, .int 1, .int (k - 1)] }, frames := fs }
+/-- the caller's frame while the callee runs -/
+def deepCaller (k : Int) : Frame := { code := codeOf deepFn, ip := 11, stack := [.int k, .int 1] }
+
+theorem deep_test (limit : Nat) (k : Int) (fs : List Frame) :
+    steps limit [deepFn] 3 (deepHead k fs) = some (deepTested k fs (decide (k ≤ 0))) := rfl
+theorem deep_to_call (limit : Nat) (k : Int) (fs : List Frame) :
+    steps limit [deepFn] 5 (deepTested k fs false) = some (deepAtCall k fs) := rfl
+theorem deep_call (limit : Nat) (k : Int) (fs : List Frame) :
+    step limit [deepFn] (deepAtCall k fs) =
+      if fs.length + 1 ≥ limit then .overflow else .next (deepHead (k - 1) (deepCaller k :: fs)) := rfl
+theorem deep_enter (limit : Nat) (n : Int) :
+    steps limit [deepFn] 2 (initT (.call 0 [.const (.int n)])) = some (deepHead n []) := rfl
+
+theorem deep_from_head (limit : Nat) : ∀ (m k : Nat) (fs : List Frame) (x : Nat), limit ≤ fs.length + 1 + m → m < k →
+    run limit [deepFn] (9 * m + 9 + x) (deepHead k fs) = .overflow
+  | m, k, fs, x, hl, hk => by
+    have h1 := deep_test limit (k : Int) fs
+    have hd : decide ((k : Int) ≤ 0) = false := by simp; omega
+    rw [hd] at h1
+    have h2 := deep_to_call limit (k : Int) fs
+    rw [show 9 * m + 9 + x = 3 + (5 + (9 * m + x + 1)) by omega, run_of_steps limit _ 3 _ _ _ h1,
+      run_of_steps limit _ 5 _ _ _ h2]
+    simp only [run, deep_call]
+    by_cases hc : fs.length + 1 ≥ limit
+    · simp [hc]
+    · simp only [hc, if_false]
+      cases m with
+      | zero => omega
+      | succ m =>
+        have e : (k : Int) - 1 = ((k - 1 : Nat) : Int) := by omega
+        rw [e, show 9 * (m + 1) + x = 9 * m + 9 + x by omega]
+        exact deep_from_head limit m (k - 1) (deepCaller k :: fs) x (by simp; omega) (by omega)
+
+/-- **Non-tail recursion deeper than the limit ends with the error value**: for every frame limit and every
+depth `n ≥ limit` (and `n ≥ 1`), `(deep n)` with `(define (deep n) (if (<= n 0) 0 (+ 1 (deep (- n 1)))))` ends
+with `overflow` — the run is defined all the way (never `stuck`), and any fuel from `9·limit + 11` on gives
+that answer.  (`n < limit` returns `n`: the `decide`d example below.) -/
+theorem deep_recursion_overflows (limit n : Nat) (h : limit ≤ n) (h1 : 1 ≤ n) (x : Nat) :
+    run limit [deepFn] (9 * limit + 11 + x) (initT (.call 0 [.const (.int n)])) = .overflow := by
+  rw [show 9 * limit + 11 + x = 2 + (9 * (limit - 1) + 9 + (9 * limit - 9 * (limit - 1) + x)) by omega,
+    run_of_steps limit _ 2 _ _ _ (deep_enter limit n)]
+  exact deep_from_head limit (limit - 1) n [] _ (by simp; omega) (by omega)
+
+/-- non-vacuity: limit 5 and depths 5, 30, 10^7 (the recursion gives up after ~56 instructions, whatever the depth
+asked for); limit 0; and below the limit the value comes back (evaluation of one run: a test) -/
+example : run 5 [deepFn] (9 * 5 + 11 + 0) (initT (.call 0 [.const (.int (5 : Nat))])) = .overflow :=
+  deep_recursion_overflows 5 5 (by decide) (by decide) 0
+example : run 5 [deepFn] (9 * 5 + 11 + 1944) (initT (.call 0 [.const (.int (30 : Nat))])) = .overflow :=
+  deep_recursion_overflows 5 30 (by decide) (by decide) 1944
+example : run 5 [deepFn] (9 * 5 + 11 + 0) (initT (.call 0 [.const (.int (10000000 : Nat))])) = .overflow :=
+  deep_recursion_overflows 5 10000000 (by decide) (by decide) 0
+example : run 0 [deepFn] (9 * 0 + 11 + 0) (initT (.call 0 [.const (.int (1 : Nat))])) = .overflow :=
+  deep_recursion_overflows 0 1 (by decide) (by decide) 0
+example : run 5 [deepFn] 2000 (initT (.call 0 [.const (.int 4)])) = .halt (.int 4) := by decide +kernel
+
+/-! ## Clauses of the property not carried by a theorem -/
+
+/-
+The theorems above are about the model VM of `Model.lean` (lowered core of C01: integers and booleans, locals,
+`if`, `let`, `begin`, `set!` of locals, binary primitives, calls of GLOBAL FIRST-ORDER procedures of fixed
+arity).  Read together they say: a tail call replaces the frame by exactly its operands
+(`tailcall_reuses_frame`); a body all of whose calls are in tail position is compiled without any
+frame-pushing call (`tail_positions_marked`); such a program never suspends a caller (`loop_constant_space`,
+`maxDepth_constant`), never holds more than `maxArity + maxCode` operands (`loop_operand_stack_bounded`) and
+never hits the frame limit (`loop_never_overflows`), after any number of steps; and for every program the
+frame stack stays within the limit and the call beyond it is an error value (`frames_never_exceed_limit`,
+`call_at_limit_overflows`).
+
+NOT carried by any theorem (covered only by the stack-depth probes on the real engine, checks/c09.py):
+
+ * Tail calls **through a variable / higher-order parameter** (`(f f (- i 1) …)`), **through `apply`**
+   (incl. rest-only callees and spread arguments), **with rest arguments**, **with captured variables**
+   (closures), in **handlers' tails** (`with-handler`), in `cond` / `and` / `or` / `when` / named `let` as
+   such: the IR has no closures, no `apply`, no rest parameters, no handlers; `cond`/`and`/`or`/named `let`
+   are covered only as far as they lower to `ite`/`let1`/`seq`/global calls.
+ * **That `compileTail` is a correct compiler** (the tail-aware code computes what the reference semantics
+   `C01.evalIR` computes): not proved here; `tail_positions_marked` says the code has no frame-pushing call,
+   not that the tail call it has is the right one.  "The loop returns the right result for every iteration
+   count" is proved for ONE program (`tail_loop_any_count`: self recursion, two parameters); for the other
+   shapes the `decide +kernel` examples (`ev`/`od` 7 ⇒ #f) are tests of single runs.
+ * **Termination/progress** in general: no theorem says that an arbitrary tail-only program does not get
+   `stuck`; the invariants are stated for the states that are reached (`tail_loop_any_count` shows for one
+   program that all of them are).
+ * **The five real tail-call opcodes** (TCOJMP, SELFTAILCALLNOARITY, TAILCALL, CALLGLOBALTAIL, and the
+   native-code equivalents under STEEL_JIT) and their argument shuffles for each arity/let-depth combination:
+   the model has ONE `tailCall` instruction.  The position analysis of `analysis.rs`
+   (`visit_with_tail_call_eligibility`) is transcribed as `compileTail`, not translated from the source.
+ * **"memory bounded independently of the count"** beyond the two VM stacks: the native stack of the
+   recursive Rust `vm()` calls, heap/resident memory, Cranelift frames are not modelled.
+ * **Iteration counts up to 10^7 on the real engine**: the theorems hold for every count in the model; the
+   real engine is probed at 10^6 / 10^7.
+ * **"Non-tail recursion deeper than the limit ends with an error value, not with a crash"** for the real
+   limits (`STACK_LIMIT`, the depth check at the top of `VmCore::vm`, the native-stack guard): the model has one
+   abstract `limit` on the number of frames; a crash of the process (native stack overflow) is not expressible.
+   That non-tail recursion deeper than the limit DOES end with the error value is proved for one program
+   (`deep_recursion_overflows`, every limit, every depth); in general only `frames_never_exceed_limit` +
+   `call_at_limit_overflows` hold (the frame stack cannot pass the limit; whether a program gets `stuck`
+   before is not excluded).
+-/
 
 end SteelVerif.C09
